@@ -32,7 +32,7 @@ fn oracle_bound(dim: usize, thorough: bool) -> usize {
     match (dim, thorough) {
         (1, false) => 10,
         (1, true) => 11,
-        (2, false) => 8,
+        (2, false) => 7,
         (2, true) => 9,
         (3, _) => 7,
         (4, false) => 5,
@@ -42,17 +42,20 @@ fn oracle_bound(dim: usize, thorough: bool) -> usize {
 }
 
 /// largest size bound per dimension for the `gen` cases (beyond the oracle bound only the
-/// model comparison and the clauses other than completeness apply)
+/// model comparison and the clauses that need no oracle apply: complete, involutive,
+/// connected, far operations commute, numbered consecutively, pairwise non-isomorphic)
 fn gen_bound(dim: usize, thorough: bool) -> usize {
     match (dim, thorough) {
-        (1, false) => 24,
-        (1, true) => 40,
-        (2, false) => 11,
-        (2, true) => 13,
-        (3, false) => 9,
-        (3, true) => 11,
-        (4, false) => 7,
-        (4, true) => 8,
+        (1, false) => 40,
+        (1, true) => 60,
+        (2, false) => 12,
+        (2, true) => 14,
+        (3, false) => 11,
+        (3, true) => 12,
+        (4, false) => 9,
+        (4, true) => 10,
+        (5, false) => 7,
+        (5, true) => 8,
         _ => 0,
     }
 }
@@ -100,7 +103,7 @@ fn main() {
         }
     }
 
-    for dim in 1..=4usize {
+    for dim in 1..=5usize {
         let top = gen_bound(dim, thorough);
         let ob = oracle_bound(dim, thorough);
         for max in (0..=top).rev() {
